@@ -60,10 +60,26 @@ def _single_exit(stmts, ret):
                 out.append(ast.If(test=s.test, body=body2 or [ast.Pass()], orelse=orelse))
                 return out
             raise NoInline('return in a branch that can fall through')
+        if isinstance(s, ast.Try) and _has(s, ast.Return) and not s.finalbody and not s.orelse and _always_returns(s.body) \
+                and not any(_has(x, ast.Return) for x in s.body[:-1] if not isinstance(x, ast.If)):
+            # try: A; return X  except E: B  <rest>    ->    try: A; ret = X  except E: B; <rest>
+            # (the code after the try runs only when a handler falls through; it moves into the handlers)
+            import copy as _copy
+            body = _single_exit(s.body, ret)
+            handlers = []
+            for h in s.handlers:
+                hb = _single_exit(list(h.body) + [_copy.deepcopy(x) for x in rest], ret) if not _always_raises(h.body) else list(h.body)
+                handlers.append(ast.ExceptHandler(type=h.type, name=h.name, body=hb or [ast.Pass()]))
+            out.append(ast.Try(body=body, handlers=handlers, orelse=[], finalbody=[]))
+            return out
         if _has(s, ast.Return):
             raise NoInline('return inside loop/try/with')
         out.append(s)
     return out
+
+
+def _always_raises(stmts):
+    return bool(stmts) and isinstance(stmts[-1], ast.Raise)
 
 
 def _always_returns(stmts):
@@ -392,6 +408,34 @@ class Inliner:
         return None, False
 
     @staticmethod
+    def _in_tail_position(func, stmt):
+        """stmt is the last statement executed by func on its path: last of the function body, or last of a with / try body (no else) /
+        if branch that is itself in tail position.  Loops and handlers do not qualify."""
+        parent = {}
+        for p_ in ast.walk(func):
+            for ch in ast.iter_child_nodes(p_):
+                parent[id(ch)] = p_
+        node = stmt
+        while node is not func:
+            par = parent.get(id(node))
+            if par is None:
+                return False
+            if par is func:
+                return func.body[-1] is node
+            if isinstance(par, (ast.With, ast.AsyncWith)):
+                ok = par.body[-1] is node
+            elif isinstance(par, ast.If):
+                ok = (par.body and par.body[-1] is node) or (par.orelse and par.orelse[-1] is node)
+            elif isinstance(par, ast.Try):
+                ok = (par.body and par.body[-1] is node and not par.orelse) or (par.orelse and par.orelse[-1] is node)
+            else:
+                return False
+            if not ok:
+                return False
+            node = par
+        return True
+
+    @staticmethod
     def _clash(func, stmt, call, tgt, is_method, form):
         """Locals (and parameters) of the helper that must be renamed apart before its body is spliced into `func`:
         names the helper stores that the caller still reads after the call (or anywhere in a loop round the call), or that
@@ -446,6 +490,27 @@ class Inliner:
                     for h in s.handlers:
                         h.body = block(h.body)
                 call, form = None, None
+                if isinstance(s, ast.Expr) and isinstance(s.value, ast.Call) and self._target(s.value, cands, mfuncs, func)[0] is None:
+                    outer = s.value
+                    inner = [a for a in list(outer.args) + [k.value for k in outer.keywords] if isinstance(a, ast.Call) and self._target(a, cands, mfuncs, func)[0] is not None]
+                    others = [a for a in list(outer.args) + [k.value for k in outer.keywords] if not (inner and a is inner[0])]
+                    if len(inner) == 1 and all(isinstance(a, (ast.Name, ast.Constant, ast.Attribute)) for a in others) \
+                            and all(isinstance(x, (ast.Name, ast.Attribute, ast.expr_context)) for x in ast.walk(outer.func)):
+                        tmp = f'{self._target(inner[0], cands, mfuncs, func)[0].name.strip("_")}_value__h{self.count}'
+                        pre_stmt = ast.copy_location(ast.Assign(targets=[ast.Name(id=tmp, ctx=ast.Store())], value=inner[0]), s)
+                        repl = ast.copy_location(ast.Name(id=tmp, ctx=ast.Load()), inner[0])
+                        outer.args = [repl if a is inner[0] else a for a in outer.args]
+                        for k in outer.keywords:
+                            if k.value is inner[0]:
+                                k.value = repl
+                        ast.fix_missing_locations(pre_stmt)
+                        stmts_in = [pre_stmt, s]
+                        res_ = block([pre_stmt])
+                        out.extend(res_)
+                        out.append(s)
+                        changed = True
+                        self.count += 1
+                        continue
                 if isinstance(s, ast.Expr) and isinstance(s.value, ast.Call):
                     call, form = s.value, 'expr'
                 elif isinstance(s, ast.Assign) and isinstance(s.value, ast.Call) and len(s.targets) == 1:
@@ -458,6 +523,13 @@ class Inliner:
                     call, form = s.test.operand, 'ifnot'
                 if call is not None:
                     tgt, is_method = self._target(call, cands, mfuncs, func)
+                    if tgt is not None and form == 'expr' and self._in_tail_position(func, s) \
+                            and all(r.value is None or (isinstance(r.value, ast.Constant) and r.value.value is None) for r in ast.walk(tgt) if isinstance(r, ast.Return)) \
+                            and any(isinstance(r, ast.Return) for r in ast.walk(tgt)):
+                        # `h(...)` as the last thing the caller does on this path, the value unused, the helper returning nothing: its
+                        # body stands there verbatim (its bare returns end the caller as they ended the helper; enclosing finally
+                        # blocks run either way)
+                        form = 'return'
                     if tgt is not None:
                         try:
                             if form == 'return':
@@ -479,6 +551,9 @@ class Inliner:
                                         ast.copy_location(y, s)
                             if form == 'expr':
                                 out.extend(pre)
+                                if res is not None and any(isinstance(x, ast.Call) for x in ast.walk(res)):
+                                    # the helper's value is unused here, but computing it has effects (it is a call): keep it as a statement
+                                    out.append(ast.copy_location(ast.Expr(value=res), s))
                             elif form == 'assign':
                                 if res is None:
                                     raise NoInline('no value')
